@@ -99,10 +99,11 @@ def gen_vals(rng, n, dtype):
 
 
 def gen_rhs(rng, n):
-    kind = rng.choice(["arr", "arr", "arr", "live", "live", "num", "nd", "qty", "vec"])
+    # "s_arr" / "s_qty": a scalar operand that carries a unit (0-d Array, scalar Quantity); its number is often exactly 1
+    kind = rng.choice(["arr", "arr", "arr", "live", "live", "num", "nd", "qty", "vec", "s_arr", "s_qty"])
     unitrel = rng.choice(["same", "same", "compatible", "incompatible", "none"])
     # "one": the operand has length 1 and is broadcast over x (fresh Array / ndarray / Quantity operands only)
-    return {"kind": kind, "unitrel": unitrel, "vals": gen_vals(rng, n, "f8"), "num": float(rng.choice([2, 4, 0.5, 3, 1])),
+    return {"kind": kind, "unitrel": unitrel, "vals": gen_vals(rng, n, "f8"), "num": float(rng.choice([2, 4, 0.5, 3, 1, 1, 100, 0.01] if kind in ("s_arr", "s_qty") else [2, 4, 0.5, 3, 1])),
             "pick": rng.randrange(64), "one": rng.random() < 0.15}
 
 
@@ -596,7 +597,7 @@ def execute(case, stats):
                     yvals = [G.vals(o).astype(np.float64) for o in yleaves]
                     if hy[0] == "arr":
                         yvals = yvals * len(xl)  # an Array is broadcast to every component
-                elif rk in ("arr", "qty", "vec"):
+                elif rk in ("arr", "qty", "vec", "s_arr", "s_qty"):
                     names = [nm for nm, (s, d) in BASE.items()]
                     if rhs["unitrel"] == "same":
                         cand = [nm for nm in names if U.of(nm).key() == xu.key()]
@@ -616,6 +617,10 @@ def execute(case, stats):
                         comps = [np.array(rhs["vals"][:nx], dtype=float) * (c + 1) for c in range(len(xl))]
                         y = osy.Vector(*[c.copy() for c in comps], unit=un)
                         yvals = comps
+                    elif rk in ("s_arr", "s_qty"):
+                        y = osy.Array(values=float(rhs["num"]), unit=un) if rk == "s_arr" else float(rhs["num"]) * osy.units(un)
+                        yvals = [np.full(nx, float(rhs["num"]))] * len(xl)
+                        stats.inc("probe.scalar_operand_with_unit")
                     else:
                         v = np.array((rhs["vals"] * 4)[:nx], dtype=float)
                         if rhs.get("one") and nx > 1:
@@ -639,7 +644,7 @@ def execute(case, stats):
                 if xdt.kind == "i":
                     if sym == "/":
                         continue
-                    if rk in ("nd", "qty") or (rk in ("arr", "vec", "live") and yu.key() != xu.key() and sym in "+-"):
+                    if rk in ("nd", "qty", "s_arr", "s_qty") or (rk in ("arr", "vec", "live") and yu.key() != xu.key() and sym in "+-"):
                         continue
                     if rk in ("arr", "vec") or (rk == "live" and any(G.bufs[G.arr[o]["buf"]].dtype.kind != "i" for o in yleaves)):
                         continue
